@@ -209,6 +209,42 @@ func checkC08(r *mon.Run) {
 		muts = append(muts, eslMut{in: whole[:len(whole)-1], kind: "truncate-after-boundary-at", field: fmt.Sprint(cap), base: "generated"})
 		muts = append(muts, eslMut{in: append(append([]byte(nil), whole...), 1, 2, 3), kind: "garbage-after-boundary-at", field: fmt.Sprint(cap), base: "generated"})
 	}
+	// one large entry cut so that a round number of its bytes is present (an incremental reader
+	// that works in blocks sees a clean end of input there)
+	for bi, dl := range []int{65536 + 37, 2*65536 + 5, 3*65536 + 4096, 200000} {
+		if bi >= 2 && !r.Thorough() && (r.Seed+int64(bi))%2 == 0 {
+			continue
+		}
+		brng := mon.Rand(r.Seed, "C08", "big-entry", dl)
+		data := make([]byte, dl)
+		brng.Read(data)
+		big := refesl.List{Type: refesl.X509Type, Entries: []refesl.Entry{{Data: data}}}
+		small := refesl.List{Type: refesl.SHA256Type, Entries: []refesl.Entry{{Data: make([]byte, 32)}, {Data: bytes.Repeat([]byte{7}, 32)}}}
+		for vi, lists := range [][]refesl.List{{big}, {small, big}, {big, small}} {
+			whole := refesl.Encode(lists)
+			dataStart := 28 + 16 // first data byte of the large entry
+			if vi == 1 {
+				dataStart += len(refesl.Encode([]refesl.List{small}))
+			}
+			seen := map[int]bool{}
+			for _, blk := range []int{4096, 32768, 65536} {
+				for k := 1; k*blk <= dl; k++ {
+					if blk < 16384 && k > 2 {
+						continue
+					}
+					for _, d := range []int{-1, 0, 1} {
+						have := k*blk + d
+						if have < 0 || have >= dl || seen[have] {
+							continue
+						}
+						seen[have] = true
+						muts = append(muts, eslMut{in: whole[:dataStart+have], kind: "truncate-large-entry", field: fmt.Sprintf("arr%d", vi),
+							vclass: fmt.Sprintf("have%%%d=%d", blk, ((have%blk)+blk)%blk), base: "generated"})
+					}
+				}
+			}
+		}
+	}
 	cases := make([]WCase, len(muts))
 	for i, m := range muts {
 		cases[i] = WCase{Entry: "esl.decode", In: m.in}
